@@ -284,6 +284,7 @@ func (cs *ContractSet) loadContractFile(path, pkgPath string) error {
 		lines = append(lines, t)
 	}
 	var cur *Contract
+	var dupChecks [][2]*Contract
 	for _, t := range lines {
 		fail := func(e error) error { return fmt.Errorf("%s: %q: %v", path, t, e) }
 		switch {
@@ -301,10 +302,16 @@ func (cs *ContractSet) loadContractFile(path, pkgPath string) error {
 				pkgPath, key = f[0], f[1]
 			}
 			cur = &Contract{Key: key, Pkg: pkgPath, Trusted: isExtern, Befores: map[string][]Clause{}, Loops: map[int]*LoopSpec{}, Flags: map[string]string{}, CallGhost: map[string]map[string]ast.Expr{}, Asserts: map[string][]Clause{}, File: path}
-			if _, dup := cs.ByKey[pkgPath+"."+key]; dup {
-				return fail(fmt.Errorf("duplicate contract"))
+			if prev, dup := cs.ByKey[pkgPath+"."+key]; dup {
+				if !isExtern || prev.File == path {
+					return fail(fmt.Errorf("duplicate contract"))
+				}
+				// the same dependency may be given its assumed contract by several packages' files (packages that
+				// do not import each other): allowed when the contracts are identical, checked after the file is read
+				dupChecks = append(dupChecks, [2]*Contract{prev, cur})
+			} else {
+				cs.ByKey[pkgPath+"."+key] = cur
 			}
-			cs.ByKey[pkgPath+"."+key] = cur
 		case strings.HasPrefix(t, "ufun "):
 			// ufun name(kind, kind) kind : uninterpreted ghost function
 			rest := strings.TrimSpace(t[5:])
@@ -318,7 +325,18 @@ func (cs *ContractSet) loadContractFile(path, pkgPath string) error {
 					u.Args = append(u.Args, strings.TrimSpace(a))
 				}
 			}
-			cs.UFuns = append(cs.UFuns, u)
+			dupU := false
+			for _, o := range cs.UFuns {
+				if o.Name == u.Name {
+					if o.Ret != u.Ret || strings.Join(o.Args, ",") != strings.Join(u.Args, ",") {
+						return fail(fmt.Errorf("ufun %s declared with a different signature in another file", u.Name))
+					}
+					dupU = true
+				}
+			}
+			if !dupU {
+				cs.UFuns = append(cs.UFuns, u)
+			}
 		case strings.HasPrefix(t, "ghostvar "):
 			f := strings.SplitN(strings.TrimSpace(t[9:]), " ", 2)
 			if len(f) != 2 {
@@ -541,5 +559,27 @@ func (cs *ContractSet) loadContractFile(path, pkgPath string) error {
 			}
 		}
 	}
+	for _, d := range dupChecks {
+		if contractSig(d[0]) != contractSig(d[1]) {
+			return fmt.Errorf("%s: extern %s.%s differs from the contract given in %s", path, d[1].Pkg, d[1].Key, d[0].File)
+		}
+	}
 	return nil
+}
+
+// contractSig renders the assumed part of a contract for comparison.
+func contractSig(c *Contract) string {
+	var b strings.Builder
+	fmt.Fprintf(&b, "pure=%v;", c.Pure)
+	for _, cl := range c.Requires {
+		b.WriteString("R:" + cl.Text + ";")
+	}
+	for _, cl := range c.Ensures {
+		b.WriteString("E:" + cl.Text + ";")
+	}
+	for _, cl := range c.Modifies {
+		b.WriteString("M:" + cl.Text + ";")
+	}
+	b.WriteString("U:" + strings.Join(c.Updates, ",") + ";")
+	return b.String()
 }
